@@ -18,6 +18,7 @@ import (
 
 type gate struct {
 	meth    string
+	skip    int // let this many matching calls pass first
 	h       int // 0 = any handle
 	entered chan struct{}
 	release chan struct{}
@@ -42,6 +43,10 @@ func (g *gater) hook(h int, meth string) {
 	var hit *gate
 	for _, gt := range g.gates {
 		if !gt.taken && gt.meth == meth && (gt.h == 0 || gt.h == h) {
+			if gt.skip > 0 {
+				gt.skip--
+				continue
+			}
 			gt.taken = true
 			hit = gt
 			break
@@ -170,75 +175,81 @@ type k7op struct {
 	class string // read | write | unlink | global | none | cloneP (read on the parent)
 	on    string // which prepared object: D (dir) F (file in D) G (sibling of D)
 	build func(fid map[string]uint64) (uint8, map[string]interface{})
+	skip  int // gate the (skip+1)-th call of meth (multi-step walks)
 }
 
 var k7ops = []k7op{
 	{"getattrF", "GetAttr", "read", "F", func(f map[string]uint64) (uint8, map[string]interface{}) {
 		return 24, map[string]interface{}{"fid": f["F"]}
-	}},
+	}, 0},
 	{"getattrD", "GetAttr", "read", "D", func(f map[string]uint64) (uint8, map[string]interface{}) {
 		return 24, map[string]interface{}{"fid": f["D"]}
-	}},
+	}, 0},
 	{"getattrG", "GetAttr", "read", "G", func(f map[string]uint64) (uint8, map[string]interface{}) {
 		return 24, map[string]interface{}{"fid": f["G"]}
-	}},
+	}, 0},
 	{"readF", "ReadAt", "read", "F", func(f map[string]uint64) (uint8, map[string]interface{}) {
 		return 116, map[string]interface{}{"fid": f["Fo"], "Count": uint64(8)}
-	}},
+	}, 0},
 	{"walkDf", "WalkGetAttr", "read", "D", func(f map[string]uint64) (uint8, map[string]interface{}) {
 		return 110, map[string]interface{}{"fid": f["D"], "newFID": uint64(40), "Names": []string{"w"}}
-	}},
+	}, 0},
 	{"cloneF", "Walk", "cloneP", "F", func(f map[string]uint64) (uint8, map[string]interface{}) {
 		return 110, map[string]interface{}{"fid": f["F"], "newFID": uint64(41), "Names": []string{}}
-	}},
+	}, 0},
 	{"mkdirD", "Mkdir", "write", "D", func(f map[string]uint64) (uint8, map[string]interface{}) {
 		return 72, map[string]interface{}{"Directory": f["D"], "Name": "m"}
-	}},
+	}, 0},
 	{"symlinkD", "Symlink", "write", "D", func(f map[string]uint64) (uint8, map[string]interface{}) {
 		return 16, map[string]interface{}{"Directory": f["D"], "Name": "s", "Target": "t"}
-	}},
+	}, 0},
 	{"mkdirG", "Mkdir", "write", "G", func(f map[string]uint64) (uint8, map[string]interface{}) {
 		return 72, map[string]interface{}{"Directory": f["G"], "Name": "m"}
-	}},
+	}, 0},
 	{"setattrF", "SetAttr", "write", "F", func(f map[string]uint64) (uint8, map[string]interface{}) {
 		return 26, map[string]interface{}{"fid": f["F"]}
-	}},
+	}, 0},
 	{"unlinkDf", "UnlinkAt", "unlink", "D", func(f map[string]uint64) (uint8, map[string]interface{}) {
 		return 76, map[string]interface{}{"Directory": f["D"], "Name": "f"}
-	}},
+	}, 0},
 	{"renameatD", "RenameAt", "global", "D", func(f map[string]uint64) (uint8, map[string]interface{}) {
 		return 74, map[string]interface{}{"OldDirectory": f["D"], "OldName": "zz", "NewDirectory": f["D"], "NewName": "yy"}
-	}},
+	}, 0},
 	{"statfsF", "StatFS", "none", "F", func(f map[string]uint64) (uint8, map[string]interface{}) {
 		return 8, map[string]interface{}{"fid": f["F"]}
-	}},
+	}, 0},
 	{"openF", "Open", "open", "F", func(f map[string]uint64) (uint8, map[string]interface{}) {
 		return 12, map[string]interface{}{"fid": f["F"], "Flags": uint64(0)}
-	}},
+	}, 0},
 	{"writeF", "WriteAt", "read", "F", func(f map[string]uint64) (uint8, map[string]interface{}) {
 		return 118, map[string]interface{}{"fid": f["Fo"], "Data": []byte("xy")}
-	}},
+	}, 0},
 	{"fsyncF", "FSync", "read", "F", func(f map[string]uint64) (uint8, map[string]interface{}) {
 		return 50, map[string]interface{}{"fid": f["Fo"]}
-	}},
+	}, 0},
 	{"readdirD", "Readdir", "read", "D", func(f map[string]uint64) (uint8, map[string]interface{}) {
 		return 40, map[string]interface{}{"Directory": f["Do"], "Count": uint64(512)}
-	}},
+	}, 0},
 	{"createD", "Create", "write", "D", func(f map[string]uint64) (uint8, map[string]interface{}) {
 		return 14, map[string]interface{}{"fid": f["Dc"], "Name": "n", "OpenFlags": uint64(2), "Permissions": uint64(0644)}
-	}},
+	}, 0},
 	{"mknodD", "Mknod", "write", "D", func(f map[string]uint64) (uint8, map[string]interface{}) {
 		return 18, map[string]interface{}{"Directory": f["D"], "Name": "k", "Mode": uint64(0644)}
-	}},
+	}, 0},
 	{"linkD", "Link", "write", "D", func(f map[string]uint64) (uint8, map[string]interface{}) {
 		return 70, map[string]interface{}{"Directory": f["D"], "Target": f["F"], "Name": "l"}
-	}},
+	}, 0},
 	{"removeF", "UnlinkAt", "remove", "F", func(f map[string]uint64) (uint8, map[string]interface{}) {
 		return 122, map[string]interface{}{"fid": f["F"]}
-	}},
+	}, 0},
 	{"renameF", "RenameAt", "global", "F", func(f map[string]uint64) (uint8, map[string]interface{}) {
 		return 20, map[string]interface{}{"fid": f["F"], "Directory": f["G"], "Name": "x"}
-	}},
+	}, 0},
+	// a two-name walk from the root, held in its second step: a read-class call on D made through
+	// a fid that is not on D
+	{"walkRootDf", "WalkGetAttr", "read", "D", func(f map[string]uint64) (uint8, map[string]interface{}) {
+		return 110, map[string]interface{}{"fid": f["R"], "newFID": uint64(42), "Names": []string{"d", "f"}}
+	}, 1},
 }
 
 // operations on F that the server refuses once F's path is gone (I4), and the per-fid exclusive
@@ -316,7 +327,7 @@ func k7pairOnce(r *rng, a, b k7op, cross bool, wait time.Duration) ([3]int, bool
 	// tree: root / d (D) / f (F);  root / g (G). Both connections bind the same paths.
 	fids := []map[string]uint64{{}, {}}
 	for c := 0; c < 2; c++ {
-		fids[c]["D"], fids[c]["F"], fids[c]["Fo"], fids[c]["G"], fids[c]["Do"], fids[c]["Dc"] = 1, 2, 3, 4, 5, 6
+		fids[c]["D"], fids[c]["F"], fids[c]["Fo"], fids[c]["G"], fids[c]["Do"], fids[c]["Dc"], fids[c]["R"] = 1, 2, 3, 4, 5, 6, 0
 		if s.walk(c, 0, 1, p9.ModeDirectory|0755, "d") < 0 || s.walk(c, 1, 2, p9.ModeRegular|0644, "f") < 0 ||
 			s.walk(c, 1, 3, p9.ModeRegular|0644, "f") < 0 || s.walk(c, 0, 4, p9.ModeDirectory|0755, "g") < 0 ||
 			s.walk(c, 0, 5, p9.ModeDirectory|0755, "d") < 0 || s.walk(c, 0, 6, p9.ModeDirectory|0755, "d") < 0 {
@@ -331,7 +342,12 @@ func k7pairOnce(r *rng, a, b k7op, cross bool, wait time.Duration) ([3]int, bool
 	if cross {
 		cb = 1
 	}
+	// every entry created by a walk from here on is a directory (multi-step walks go through it)
+	s.be.mu.Lock()
+	s.be.forceKind = p9.ModeDirectory | 0755
+	s.be.mu.Unlock()
 	ga := s.g.arm(a.meth, 0)
+	ga.skip = a.skip
 	ta, va := a.build(fids[0])
 	s.send(0, ta, va)
 	if !ga.waitEntered(3 * time.Second) {
@@ -339,6 +355,7 @@ func k7pairOnce(r *rng, a, b k7op, cross bool, wait time.Duration) ([3]int, bool
 		return [3]int{}, false
 	}
 	gb := s.g.arm(b.meth, 0)
+	gb.skip = b.skip
 	tb, vb := b.build(fids[cb])
 	s.send(cb, tb, vb)
 	overlap := 0
@@ -753,6 +770,61 @@ func runK7scen(r *rng, n int) {
 			case <-time.After(5 * time.Second):
 			}
 			emit("k7scen name=cut-with-request-in-backend => returned_early=%d closed_early=%d returned=%d %s", retEarly, early, ret, s.be.lifecycle())
+		}
+		// a backend panic inside UnlinkAt is answered EFAULT and leaves no lock behind: the entry's
+		// other fid, and a second unlink of the name, are still served
+		{
+			s := newK7(r, 1)
+			s.walk(0, 0, 1, p9.ModeDirectory|0755, "d")
+			s.walk(0, 1, 2, p9.ModeRegular|0644, "f")
+			s.be.mu.Lock()
+			s.be.panicOn = "UnlinkAt"
+			s.be.mu.Unlock()
+			efault, child, again := 0, 0, 0
+			s.send(0, 76, map[string]interface{}{"Directory": uint64(1), "Name": "f", "Flags": uint64(0)})
+			if _, rt, e, ok := s.recvReply(0, 4*time.Second); ok && rt == 7 && e == 14 {
+				efault = 1
+			}
+			s.send(0, 24, map[string]interface{}{"fid": uint64(2)})
+			if _, rt, _, ok := s.recvReply(0, 4*time.Second); ok && rt == 25 {
+				child = 1
+			}
+			s.send(0, 76, map[string]interface{}{"Directory": uint64(1), "Name": "f", "Flags": uint64(0)})
+			if _, rt, _, ok := s.recvReply(0, 4*time.Second); ok && rt == 77 {
+				again = 1
+			}
+			s.close()
+			emit("k7scen name=panic-in-unlinkat-keeps-serving => efault=%d child=%d again=%d", efault, child, again)
+		}
+		// after a cross-directory rename the fid that travelled with the file and a fid walked to
+		// the new path afterwards are on one path: SetAttr through one excludes GetAttr through the other
+		{
+			s := newK7(r, 1)
+			s.walk(0, 0, 1, p9.ModeDirectory|0755, "d")
+			s.walk(0, 0, 2, p9.ModeDirectory|0755, "g")
+			s.walk(0, 1, 3, p9.ModeRegular|0644, "f")
+			moved := s.call(0, 74, map[string]interface{}{"OldDirectory": uint64(1), "OldName": "f", "NewDirectory": uint64(2), "NewName": "y"})
+			s.walk(0, 2, 4, p9.ModeRegular|0644, "y")
+			g := s.g.arm("GetAttr", 0)
+			s.send(0, 24, map[string]interface{}{"fid": uint64(3)})
+			entered := g.waitEntered(2 * time.Second)
+			g2 := s.g.arm("SetAttr", 0)
+			s.send(0, 26, map[string]interface{}{"fid": uint64(4)})
+			overlap := 0
+			if g2.waitEntered(120 * time.Millisecond) {
+				overlap = 1
+			}
+			close(g.release)
+			g2.waitEntered(3 * time.Second)
+			close(g2.release)
+			s.recvReply(0, 3*time.Second)
+			s.recvReply(0, 3*time.Second)
+			s.close()
+			ok := 0
+			if moved == 75 && entered {
+				ok = 1
+			}
+			emit("k7scen name=moved-fid-and-fresh-fid-share-the-path-lock => formed=%d overlap=%d", ok, overlap)
 		}
 	}
 	_ = strings.Join
